@@ -320,7 +320,8 @@ func (s *State) clone() *State {
 }
 
 func (s *State) assume(t *Term) {
-	if t == True {
+	if t == True || t.hasBound {
+		// open formulas (mentioning a bound variable of an enclosing quantifier) cannot be assumed
 		return
 	}
 	s.pc = append(s.pc, t)
